@@ -10,6 +10,7 @@ import warnings
 from .. import core
 from ..core import cbool, clist, cnat, cstr, chex
 from ..runner import Entry, differential
+from . import c16_translate
 
 PRE = ("From Coq Require Import String.\nFrom EsVerif.Common Require Import Base Bytes.\n"
        "From EsVerif.C16 Require Import Model Spec Exec.\nLocal Open Scope list_scope.\n")
@@ -336,7 +337,10 @@ class Convert(Entry):
     def cases(self, ctx, round=0):
         r = ctx.rng
         cs = []
-        for a, fam in array_pool(ctx, round):
+        pool = array_pool(ctx, round)
+        if not ctx.quick() and round == 0:
+            pool = pool + sweep_pool()          # exhaustive small scope: alphabet x spellings x 4 functions x inplace x keep_dtype
+        for a, fam in pool:
             combos = [(f, ip, kd) for f in FNS for ip in (False, True) for kd in (False, True)]
             if ctx.quick() and round == 0 and fam.startswith("plain"):
                 combos = r.sample(combos, 6)
@@ -506,20 +510,346 @@ class Descr(Entry):
         return "descr_to_native (descr_of %s %s)" % (ml(), cfields(c["dtype"]))
 
 
-ENTRIES = [Convert(), NativeInplace(), Predicates(), Descr()]
+# ----------------------------------------------------------------------------------------------
+# exhaustive small-scope sweep (thorough tier): every dtype over a small alphabet of field types
+# ----------------------------------------------------------------------------------------------
+
+SWEEP_ALPHABET = [("i", 2), ("f", 4), ("c", 8), ("U", 4), ("S", 2), ("i", 1)]
+
+
+def sweep_data(spec, shape):
+    n = rowsize(spec) * nelem(shape)
+    return bytes((17 * i + 1) % 251 for i in range(n)).hex()
+
+
+def sweep_pool():
+    """all plain dtypes and all structured dtypes of 1..3 fields over SWEEP_ALPHABET (the second field, when
+    there is one, is a (2,) sub-array) x every spelling of a uniform order; shape (2,)"""
+    import itertools
+    pool = []
+    for k, s in SWEEP_ALPHABET:
+        for o in (["<", ">", "="] if has_order(k, s) else ["|"]):
+            spec = {"plain": [k, s, o]}
+            pool.append(({"dtype": spec, "shape": [2], "data": sweep_data(spec, [2])}, "sweep-plain"))
+    for nf in (1, 2, 3):
+        for combo in itertools.product(SWEEP_ALPHABET, repeat=nf):
+            ordered = any(has_order(k, s) for k, s in combo)
+            for o in (["<", ">", "="] if ordered else ["|"]):
+                fields = [["f%d" % i, k, s, o if has_order(k, s) else "|", [2] if i == 1 else []]
+                          for i, (k, s) in enumerate(combo)]
+                spec = {"fields": fields}
+                pool.append(({"dtype": spec, "shape": [2], "data": sweep_data(spec, [2])}, "sweep-struct%d" % nf))
+    return pool
+
+
+# ----------------------------------------------------------------------------------------------
+# recfile.Util.to_native: every field converted on its own (mixed orders)
+# ----------------------------------------------------------------------------------------------
+
+class RecNative(Entry):
+    """esutil.recfile.Util.to_native(array): the array itself when native, otherwise a converted copy; called twice"""
+    name = "rec_to_native"
+
+    def cases(self, ctx, round=0):
+        r = ctx.rng
+        pool = array_pool(ctx, round)
+        if ctx.quick():
+            pool = pool[::3]
+        cs = [{"array": a, "family": fam} for a, fam in pool]
+        nonzero = [sh for sh in SHAPES if nelem(sh)]
+        for i in range(ctx.n(40, 300)):           # fields of different orders: what fix 7fcb8b2 is about
+            spec = gen_struct(r, "mixed")
+            sh = r.choice(nonzero)
+            if rowsize(spec) * nelem(sh) > 400:
+                sh = r.choice([[], [2]])
+            cs.append({"array": arr_case(r, spec, sh), "family": struct_mode(spec)})
+        return cs
+
+    def impl(self, c):
+        import esutil.recfile.Util as U
+        a = build(c["array"])
+
+        def go():
+            r1, o1 = observe(U.to_native, a)
+            r2, o2 = observe(U.to_native, r1)
+            return [o1, o2]
+        return guarded_impl(go)
+
+    def term(self, c, out):
+        if "err" in out:
+            return "3%Z" if not struct_mode_is_mixed(c["array"]["dtype"]) else "1%Z"
+        o1, o2 = out["ok"]
+        return "v_rec_native %s %s %s %s" % (ml(), carr(c["array"]), cout(o1), cout(o2))
+
+    def nontrivial(self, c, out):
+        a = c["array"]
+        if "err" in out or not a["data"] or not multibyte(a["dtype"]):
+            return False
+        return out["ok"][0]["res"]["data"] != a["data"]
+
+    def show(self, c):
+        return "rec_to_native %s %s" % (ml(), carr(c["array"]))
+
+
+# ----------------------------------------------------------------------------------------------
+# non-contiguous inputs: the functions called on a view of a larger buffer
+# ----------------------------------------------------------------------------------------------
+
+def apply_recipe(x, rc):
+    k = rc["kind"]
+    if k == "step":
+        return x[rc["start"]::rc["step"]]
+    if k == "T":
+        return x.T
+    if k == "block":
+        return x[rc["r0"]::rc["rs"], rc["c0"]::rc["cs"]]
+    if k == "blockT":
+        return x[rc["r0"]::rc["rs"], rc["c0"]::rc["cs"]].T
+    if k == "zero-d":
+        return x[rc["i"]:rc["i"] + 1].reshape(())
+    if k == "whole":
+        return x[...]
+    raise HarnessFault("unknown view recipe %r" % (rc,))
+
+
+def gen_recipe(r):
+    k = r.choice(["step", "step", "T", "block", "blockT", "zero-d", "whole"])
+    if k == "step":
+        n = r.randrange(2, 8)
+        step = r.choice([2, 3, -1, -2])
+        start = r.randrange(0, n) if step > 0 else r.randrange(0, n)
+        return [n], {"kind": k, "start": start, "step": step}
+    if k == "T":
+        return [r.randrange(1, 4), r.randrange(2, 4)], {"kind": k}
+    if k in ("block", "blockT"):
+        sh = [r.randrange(2, 5), r.randrange(2, 5)]
+        return sh, {"kind": k, "r0": r.randrange(0, 2), "rs": r.choice([1, 2, -1]), "c0": r.randrange(0, 2), "cs": r.choice([1, 2, -1])}
+    if k == "zero-d":
+        n = r.randrange(1, 5)
+        return [n], {"kind": k, "i": r.randrange(0, n)}
+    return [r.randrange(1, 4)], {"kind": k}
+
+
+def crows(hexdata, rs):
+    b = bytes.fromhex(hexdata)
+    return "[%s]" % "; ".join(chex(b[i:i + rs]) for i in range(0, len(b), rs))
+
+
+class ViewConvert(Entry):
+    """the four functions x inplace x keep_dtype on NON-CONTIGUOUS input: strided / reversed / transposed / 2-d block /
+    0-d views of a larger buffer; called twice; the owning buffer is observed after the first call"""
+    name = "view"
+
+    def cases(self, ctx, round=0):
+        r = ctx.rng
+        cs = []
+        for i in range(ctx.n(45, 400)):
+            x = r.random()
+            if x < 0.35:
+                k, s = r.choice(NUMERIC + UNICODE)
+                spec = {"plain": [k, s, r.choice(["<", ">", "="]) if has_order(k, s) else "|"]}
+                fam = "view-plain"
+            else:
+                spec = gen_struct(r, "uniform" if x < 0.6 else "with-na" if x < 0.9 else "mixed", nf=r.randrange(1, 4))
+                fam = "view-" + struct_mode(spec)
+            if rowsize(spec) > 60:
+                continue
+            bshape, rc = gen_recipe(r)
+            base = arr_case(r, spec, bshape)
+            combos = [(f, ip, kd) for f in FNS for ip in (False, True) for kd in (False, True)]
+            for f, ip, kd in (r.sample(combos, 4) if ctx.quick() else combos):
+                cs.append({"fn": f, "inplace": ip, "keep": kd, "base": base, "recipe": rc, "family": "%s/%s" % (fam, rc["kind"])})
+        return cs
+
+    def impl(self, c):
+        import numpy as np
+        import esutil.numpy_util as nu
+        base = build(c["base"])
+        I = np.arange(base.size).reshape(base.shape)
+        v = apply_recipe(base, c["recipe"])
+        idx = [int(x) for x in apply_recipe(I, c["recipe"]).ravel()]
+        f = getattr(nu, c["fn"])
+        before = describe(v)
+
+        def go():
+            r1, o1 = observe(f, v, inplace=c["inplace"], keep_dtype=c["keep"])
+            base1 = base.tobytes().hex()
+            r2, o2 = observe(f, r1, inplace=c["inplace"], keep_dtype=c["keep"])
+            return {"view": before, "idx": idx, "o": [o1, o2], "base1": base1,
+                    "contiguous": bool(v.flags["C_CONTIGUOUS"])}
+        return guarded_impl(go)
+
+    def term(self, c, out):
+        if "err" in out:
+            return "3%Z" if not struct_mode_is_mixed(c["base"]["dtype"]) else "1%Z"
+        o = out["ok"]
+        spec = c["base"]["dtype"]
+        rs = rowsize(spec)
+        o1, o2 = o["o"]
+        return "v_view %s %s %s %s %s %s %s %s %s %s %s" % (
+            ml(), CONV[c["fn"]], cdtype(spec), clist(o["view"]["shape"], cnat), crows(c["base"]["data"], rs),
+            clist(o["idx"], cnat), cbool(c["inplace"]), cbool(c["keep"]), cout(o1), cout(o2), crows(o["base1"], rs))
+
+    def nontrivial(self, c, out):
+        if "err" in out or not multibyte(c["base"]["dtype"]):
+            return False
+        o = out["ok"]
+        return bool(o["idx"]) and (not o["contiguous"] or c["recipe"]["kind"] == "zero-d") \
+            and o["o"][0]["res"]["data"] != o["view"]["data"]
+
+    def family(self, c):
+        return "%s/%s" % (c.get("family", "?"), c["fn"])
+
+
+# ----------------------------------------------------------------------------------------------
+# nested structured dtypes (the code accepts them; the field scan sees only the top level)
+# ----------------------------------------------------------------------------------------------
+
+def gen_nested(r):
+    """-> top-level field list: [name, leaf spec [k,s,o,sub]] | [name, {"struct": [[name,k,s,o,sub],...]}, sub]"""
+    big = r.random() < 0.5
+    ordered = [t for t in NUMERIC + UNICODE if has_order(*t) and t[1] <= 8]
+    single = [t for t in NUMERIC + BYTES if not has_order(*t)]
+
+    def leaf(nm):
+        k, s = r.choice(ordered if r.random() < 0.65 else single)
+        return [nm, k, s, spell(r, big) if has_order(k, s) else "|", r.choice([[], [], [2]])]
+    top = []
+    names = r.sample(NAMES, r.randrange(1, 4))
+    nested_at = r.randrange(len(names))
+    for i, nm in enumerate(names):
+        if i == nested_at or r.random() < 0.25:
+            inner = [leaf("%s%d" % (nm, j)) for j in range(r.randrange(1, 3))]
+            top.append({"name": nm, "struct": inner, "sub": r.choice([[], [], [2]])})
+        else:
+            top.append({"name": nm, "leaf": leaf(nm)})
+    return top
+
+
+def np_nested(top):
+    import numpy as np
+    fl = []
+    for t in top:
+        if "leaf" in t:
+            n, k, s, o, sub = t["leaf"]
+            fl.append((n, np_scalar(k, s, o), tuple(sub)) if sub else (n, np_scalar(k, s, o)))
+        else:
+            inner = np.dtype([(n, np_scalar(k, s, o), tuple(sub)) if sub else (n, np_scalar(k, s, o))
+                              for n, k, s, o, sub in t["struct"]])
+            fl.append((t["name"], inner, tuple(t["sub"])) if t["sub"] else (t["name"], inner))
+    return np.dtype(fl)
+
+
+def flatten_dtype(d, prefix=""):
+    """leaf fields of a packed (possibly nested) structured dtype, sub-arrays of structures unrolled"""
+    out, off = [], 0
+    for n in d.names:
+        fd, fo = d.fields[n][0], d.fields[n][1]
+        if fo != off:
+            raise Unrepresentable("padded dtype %r" % (d,))
+        off += fd.itemsize
+        base, shape = (fd.subdtype[0], [int(x) for x in fd.shape]) if fd.subdtype is not None else (fd, [])
+        if base.names is None:
+            if base.kind not in KIND:
+                raise Unrepresentable("dtype %r" % (base,))
+            out.append([prefix + n, base.kind, int(base.itemsize), base.byteorder, shape])
+        else:
+            cnt = 1
+            for x in shape:
+                cnt *= x
+            for i in range(cnt):
+                out += flatten_dtype(base, "%s%s%s." % (prefix, n, "[%d]" % i if shape else ""))
+    if off != d.itemsize:
+        raise Unrepresentable("dtype %r has trailing padding" % (d,))
+    return out
+
+
+def describe_nested(arr):
+    return {"dtype": {"fields": flatten_dtype(arr.dtype)}, "shape": [int(x) for x in arr.shape], "data": arr.tobytes().hex()}
+
+
+class Nested(Entry):
+    """the four functions on structured arrays with a structured field"""
+    name = "nested"
+
+    def cases(self, ctx, round=0):
+        r = ctx.rng
+        cs = []
+        for i in range(ctx.n(25, 250)):
+            top = gen_nested(r)
+            sh = r.choice([[], [1], [2], [2, 2]])
+            combos = [(f, ip, kd) for f in FNS for ip in (False, True) for kd in (False, True)]
+            seed = r.randrange(1 << 30)
+            for f, ip, kd in (r.sample(combos, 4) if ctx.quick() else combos):
+                cs.append({"fn": f, "inplace": ip, "keep": kd, "top": top, "shape": sh, "dataseed": seed, "family": "nested"})
+        return cs
+
+    def impl(self, c):
+        import random
+        import numpy as np
+        import esutil.numpy_util as nu
+        d = np_nested(c["top"])
+        n = d.itemsize * nelem(c["shape"])
+        if n > 600:
+            return {"err": "skip", "msg": "too large"}
+        buf = bytearray(random.Random(c["dataseed"]).randbytes(n))
+        a = np.ndarray(tuple(c["shape"]), dtype=d, buffer=buf).copy()
+        top = [d.fields[nm][0].base.byteorder for nm in d.names]
+        f = getattr(nu, c["fn"])
+
+        def obs(x):
+            r = f(x, inplace=c["inplace"], keep_dtype=c["keep"])
+            return r, {"res": describe_nested(r), "same": r is x, "shares": bool(r is x or np.shares_memory(r, x)),
+                       "inp": describe_nested(x)}
+
+        def go():
+            before = describe_nested(a)
+            r1, o1 = obs(a)
+            r2, o2 = obs(r1)
+            return {"array": before, "top": top, "o": [o1, o2]}
+        return guarded_impl(go)
+
+    def term(self, c, out):
+        if "err" in out:
+            return "0%Z" if out["err"] == "skip" else "1%Z"
+        o = out["ok"]
+        return "v_conv_top %s %s %s %s %s %s %s %s" % (
+            ml(), CONV[c["fn"]], clist(o["top"], lambda x: ORD[x]), carr(o["array"]), cbool(c["inplace"]), cbool(c["keep"]),
+            cout(o["o"][0]), cout(o["o"][1]))
+
+    def nontrivial(self, c, out):
+        if "err" in out:
+            return False
+        o = out["ok"]
+        return multibyte(o["array"]["dtype"]) and bool(o["array"]["data"]) and o["o"][0]["res"]["data"] != o["array"]["data"]
+
+    def family(self, c):
+        return "nested/%s" % c["fn"]
+
+
+ENTRIES = [Convert(), NativeInplace(), Predicates(), Descr(), RecNative(), ViewConvert(), Nested()]
 
 TRUSTED = [
     "Coq 8.16.1 kernel (coqc, vm_compute; no native_compute); every C16 theorem is closed under the global context (no axioms)",
-    "hand-written model C16/Model.v of numpy_util.{is_big_endian,is_little_endian,to_native,to_big_endian,to_little_endian,"
-    "byteswap,descr_to_native} and recfile/Util.{remove_dtype_byteorder,to_native_inplace}; tied to the working tree by the "
-    "correspondence run on every check (dtype incl. the spelling of every field's byteorder, shape, raw bytes, same-object, "
-    "shares-memory, caller's array after the call; two consecutive calls)",
-    "modelled, not verified: numpy's ndarray.byteswap (reverse every unit: item, complex half, UCS4 code point; byte strings "
-    "untouched), dtype.newbyteorder ('|' stays, native -> opposite letter, opposite -> machine letter), ndarray.copy, "
-    "dtype.descr and numpy.dtype(descr) parsing, object identity / buffer aliasing as two flags; packed C-contiguous arrays only",
+    "translator harness/props/c16_translate.py (python ast -> C16/Gen.v, fail-closed, run on every check): trusted to print "
+    "Gallina that says what the source says for the statement/expression subset it accepts (assignments, if/else, the "
+    "`names is None` split, the field-name loop with break, boolean expressions over order letters and the machine flag, "
+    "calls of the predicates / byteswap / ndarray.byteswap / copy / astype / view / newbyteorder, .dtype assignment, keyword "
+    "defaults, the two descriptor-stripping loops); C16/Tie.v (proved, re-checked against the regenerated text) shows every "
+    "regenerated function equal to the hand model C16/Model.v + Ext.v, so the theorems are about the translated source",
+    "hand-written model C16/Model.v + Ext.v of numpy_util.{is_big_endian,is_little_endian,to_native,to_big_endian,to_little_endian,"
+    "byteswap,descr_to_native} and recfile/Util.{remove_dtype_byteorder,to_native_inplace,to_native,is_little_endian}; besides the "
+    "source tie it is compared with the working tree by the correspondence run on every check (dtype incl. the spelling of every "
+    "field's byteorder, shape, raw bytes, same-object, shares-memory, caller's array after the call; two consecutive calls; the "
+    "owning buffer of a non-contiguous view)",
+    "modelled, not verified (the primitives of Ext.v): numpy's ndarray.byteswap (reverse every unit: item, complex half, UCS4 "
+    "code point; byte strings untouched; recursion into nested fields), dtype.newbyteorder(arg) ('|' stays, native -> opposite "
+    "letter, opposite -> machine letter; '=' -> native), dtype == as equivalence of meaning, ndarray.astype between dtypes of one "
+    "structure as field-wise conversion, ndarray.copy, assignment to .dtype vs .view, dtype.descr and numpy.dtype(descr) parsing, "
+    "object identity / buffer aliasing as two flags; strided views as gather/scatter of elements; packed dtypes only",
     "numpy.little_endian is a model parameter (theorems hold for both values); the correspondence run measures the machine it runs on",
-    "python harness (harness/props/C16.py): array construction with exact byteorder spelling (round-trip asserted), literal "
-    "printers, coqc evaluating Exec.v verdict terms",
+    "python harness (harness/props/C16.py): array construction with exact byteorder spelling (round-trip asserted), view recipes and "
+    "their element index maps, flattening of nested dtypes to leaf fields, literal printers, coqc evaluating Exec.v verdict terms",
 ]
 
 
@@ -528,10 +858,39 @@ def run(ctx, replay=None):
                 "adversarial structured layouts ('|' field first/middle/last), seeded random structured dtypes (scalar and "
                 "sub-array fields, uniform order with mixed '<'/'=' spellings, '|' fields mixed in, all-'|', and mixed-order "
                 "ones outside the quantifier for the model only), shapes 0-d..2-d incl. empty; x 4 functions x inplace x "
-                "keep_dtype, each called twice.  Every case runs on the real esutil (scratch build of the working tree) and "
-                "inside Coq (model = implementation?  verified checker conv_check on the implementation's output).  "
+                "keep_dtype, each called twice; the same through non-contiguous views (strided, reversed, transposed, 2-d "
+                "blocks, 0-d) with the owning buffer observed; nested structured dtypes (leaf view + what the scan sees); "
+                "recfile.Util.to_native incl. fields of different orders; thorough tier: exhaustive sweep of all plain and "
+                "1..3-field structured dtypes over the alphabet {i2,f4,c8,U1,S2,i1} x every spelling of a uniform order x 4 "
+                "functions x inplace x keep_dtype.  Every case runs on the real esutil (scratch build of the working tree) "
+                "and inside Coq (model = implementation?  verified checker conv_check on the implementation's output).  "
                 "non-trivial: non-empty array with a multi-byte unit and (the call changed the bytes or a '|' field is "
-                "present); predicates: plain array; descr: a field with a byte order.  distinct by canonical JSON.")
+                "present); view: additionally not C-contiguous (or 0-d); predicates: plain array; descr: a field with a "
+                "byte order.  distinct by canonical JSON.")
     ctx.trusted = TRUSTED
-    core.proof_step(ctx, "C16", core.ALLOW_DISCRETE)
+    # 1. regenerate C16/Gen.v from the source of the tree under check (fail closed)
+    defs = None
+    try:
+        defs, changed = c16_translate.regenerate(ctx.impl, core.COQDIR)
+        ctx.obligation("C16/Gen.v regenerated from esutil/numpy_util.py + esutil/recfile/Util.py (%d definitions: predicates, "
+                       "field scans, swap conditions, byteswap/newbyteorder arguments, copy vs same object, defaults, descriptor "
+                       "stripping)%s" % (len(defs), " [changed]" if changed else ""), True)
+    except c16_translate.TranslateError as e:
+        c16_translate.write_reference(core.COQDIR)          # never keep the text of a tree checked earlier
+        ctx.obligation("C16/Gen.v regenerated from esutil/numpy_util.py + esutil/recfile/Util.py", False, str(e))
+        ctx.violation("translation of the byte-order functions failed (fail-closed): %s" % e,
+                      {"kind": "translation", "error": str(e),
+                       "no_longer_checks": "source tie C16_source_tie / C16_statement_of_source (C16/Gen.v = model) to "
+                                           "esutil/numpy_util.py and esutil/recfile/Util.py"}, found_input=False)
+    # 2. theorems; C16_source_* are re-checked against the regenerated Gen.v
+    built = core.proof_step(ctx, "C16", core.ALLOW_DISCRETE)
+    if not built:
+        if defs is not None:
+            diff = c16_translate.differences(defs)
+            ctx.notes.append("regenerated definitions that differ from the modelled source: %s" % (", ".join(diff) or "none"))
+        # the model and the checkers do not depend on Gen.v: keep looking for a failing input
+        ok, _log = core.coq_make(["theories/C16/Exec.vo"])
+        if not ok:
+            return
+    # 3. correspondence
     differential(ctx, PRE, ENTRIES, replay)
